@@ -25,6 +25,12 @@ struct file_builder {
     int dseed = 0;
 };
 
+// A data stream whose structure is concrete and whose payload is symbolic: params[base] = number of bytes n, params[base+1..base+n] =
+// the bytes, 256 meaning "leave symbolic" (used for run-length-coded data: packet headers / escapes concrete, colour values symbolic)
+static inline void structured_stream(file_builder& f, int base, unsigned long at) {
+    int n = vp_param(base);
+    for (int i = 0; i < n; ++i) { int b = vp_param(base + 1 + i); if (b != 256) f.u8(at + (unsigned long)i, (unsigned)b); }
+}
 // ---- BMP.  params[base..]: magic_ok, header size, bits per pixel, compression, width, height (negative: top-down),
 //      num_colors (-1: symbolic), pixel data offset (-1: symbolic)
 static inline void bmp_file(file_builder& f, int base) {
@@ -40,6 +46,7 @@ static inline void bmp_file(file_builder& f, int base) {
     // decoder's loops stay within a small unwinding bound; runs still exceed the row width of the small images used
     int datamax = vp_param(base + 8), datastart = vp_param(base + 9);
     if (datamax > 0) for (unsigned long i = (unsigned long)datastart; i < f.L; ++i) vp_assume(f.d[i] <= datamax);
+    if (datamax < 0) structured_stream(f, base + 14, (unsigned long)datastart);   // concrete run-length structure from params[base+14..]
 }
 // ---- TARGA.  params[base..]: id length, colour map type, image type, bits per pixel, descriptor, width, height
 static inline void targa_file(file_builder& f, int base) {
@@ -50,9 +57,10 @@ static inline void targa_file(file_builder& f, int base) {
     // m = 0x7C keeps raw/RLE packets of 1..4 pixels, so that the decoder's loops stay within a small unwinding bound
     int mask = vp_param(base + 7), datastart = vp_param(base + 8);
     if (mask > 0) for (unsigned long i = (unsigned long)datastart; i < f.L; ++i) vp_assume((f.d[i] & mask) == 0);
+    if (mask < 0) structured_stream(f, base + 14, (unsigned long)datastart);
 }
 // ---- PNM.  params[base..]: type 1..6, width, height, max value, variant
-//      variant 0: "P<t>\n<w> <h>\n<max>\n" + data; 1: with a comment line; 2: width with 11 digits; 3: ascii data with one 17-digit token
+//      variant 0: "P<t>\n<w> <h>\n<max>\n" + data; 1: with a comment line; 2: width with 11 digits; 3 / 4: ascii data with one 17- / 16-digit token (the reader's digit buffer holds 15 digits + NUL)
 //      binary data symbolic; ascii data: concrete digits in fixed-width tokens separated by one space; [base+5] = digit seed
 static inline void pnm_file(file_builder& f, int base) {
     int t = vp_param(base), w = vp_param(base + 1), h = vp_param(base + 2), mx = vp_param(base + 3), var = vp_param(base + 4);
@@ -67,7 +75,7 @@ static inline void pnm_file(file_builder& f, int base) {
         int samples = w * h * (t == 3 ? 3 : 1);
         for (int s = 0; s < samples; ++s) {
             if (t == 1) { f.bit_digit(i); ++i; f.u8(i++, ' '); }
-            else { int nd = (var == 3 && s == 0) ? 17 : 3; for (int k = 0; k < nd; ++k) { f.digit(i); ++i; } f.u8(i++, ' '); }
+            else { int nd = (var == 3 && s == 0) ? 17 : ((var == 4 && s == 0) ? 16 : 3); for (int k = 0; k < nd; ++k) { f.digit(i); ++i; } f.u8(i++, ' '); }
         }
     }
 }
